@@ -252,10 +252,13 @@ class MapO:
     def with_col(self, col, arr):
         m = MapO(self.keys, self.cols, self.vkinds, self.record_cls)
         m.cols[col] = arr
+        m.shared_rng = getattr(self, 'shared_rng', None)
         return m
 
     def with_keys(self, keys):
-        return MapO(keys, self.cols, self.vkinds, self.record_cls)
+        m = MapO(keys, self.cols, self.vkinds, self.record_cls)
+        m.shared_rng = getattr(self, 'shared_rng', None)
+        return m
 
     @property
     def is_scalar(self):
@@ -290,7 +293,7 @@ class SymListO:
 
 
 RArrSort = z3.ArraySort(Arm, Real)
-VKIND_SORT = {'dict.keys': ASeq, 'dict.vals': RArrSort, 'real': Real, 'bool': Bool, 'optarm': OptArm, 'mat': Mat, 'rseq': RSeq, 'int': Int, 'arm': Arm,
+VKIND_SORT = {'rngstate': Rng, 'dict.keys': ASeq, 'dict.vals': RArrSort, 'real': Real, 'bool': Bool, 'optarm': OptArm, 'mat': Mat, 'rseq': RSeq, 'int': Int, 'arm': Arm,
               'opaque': Opaque, 'rng': Int, 'aseq': ASeq, 'iseq': ISeq}
 
 
@@ -313,6 +316,8 @@ def wrap(vkind, term):
         return SeqV('I', term)
     if vkind == 'opaque':
         return OpaqueV(term)
+    if vkind == 'rngstate':
+        return OpaqueV(term, 'rngstate')
     raise Unsupported('wrap ' + vkind)
 
 
